@@ -55,7 +55,16 @@ def gen_history(rng, n, modelled_only=False):
         def tier():
             return tuple(rng.randrange(len(POOL)) if rng.random() < 0.1 else rng.randrange(VALID) for _ in range(rng.randint(0, 3)))
         if r < 0.12:
-            ops.append(('tset', tuple(tier() for _ in range(rng.randint(0, 3)))))
+            tiers = tuple(tier() for _ in range(rng.randint(0, 3)))
+            ops.append(('tset', tiers))
+            if rng.random() < 0.3:
+                # assign the same tiers again with the URLs inside each tier in another order (or the tiers themselves reordered)
+                tiers2 = [list(t) for t in tiers]
+                for t in tiers2:
+                    rng.shuffle(t)
+                if rng.random() < 0.3:
+                    rng.shuffle(tiers2)
+                ops.append(('tset', tuple(tuple(t) for t in tiers2)))
         elif r < 0.24:
             ops.append(('tappend', tier()))
         elif r < 0.32:
@@ -281,7 +290,7 @@ def classify(op, viol):
 
 
 def run(ck, model_ok):
-    ck.rule = ('random edit histories (3..30 ops) on one Torrent: set / append / insert / index-assign / slice-assign / delete / clear / extend on the tracker '
+    ck.rule = ('random edit histories (3..30 ops) on one Torrent: set (incl. assigning the current tiers again in a different order) / append / insert / index-assign / slice-assign / delete / clear / extend on the tracker '
                'tiers, in-place edits of a tier, and the same on webseeds and httpseeds, with valid, duplicate, space-normalising and invalid URLs; each '
                'history is run twice (fresh property access per op, one held reference per list); after EVERY op the C16 invariant is checked on the real '
                'metainfo and the state is compared with the model (until the first op outside the model); non-trivial = distinct histories')
@@ -292,7 +301,7 @@ def run(ck, model_ok):
              [('tset', ((0, 1), (2,))), ('ttier', 0, ('setitem', 0, 1))],
              [('sset', 'web', (0, 1)), ('sop', 'web', ('setslice', 0, 1, (1, 2, 2)))],
              [('tset', ((0,), (1,))), ('tsetslice', 0, 1, ((2,),))],
-             [('tset', ((4,), (5,), (0,)))], [('sset', 'web', (0, 6))], [('tappend', (0,)), ('ttier', 0, ('clear',))]]
+             [('tset', ((4,), (5,), (0,)))], [('tset', ((0, 1, 2), (3,))), ('tset', ((1, 0, 2), (3,)))], [('sset', 'web', (0, 6))], [('tappend', (0,)), ('ttier', 0, ('clear',))]]
     for i in range(500 if quick else 30000):
         hists.append(gen_history(ck.rng, ck.rng.randint(3, 14 if quick else 30), modelled_only=(i % 3 != 0)))
     for hi, ops in enumerate(hists):
